@@ -94,16 +94,37 @@ class PolicyError(Exception):
     """raised on purpose by the pruning policy installed by the harness"""
 
 
+class PolicyAbort(BaseException):
+    """a policy interrupted by something that is not an `Exception` (like KeyboardInterrupt / SystemExit)"""
+
+
+# what the policy raises: the last element of a policy spec, default "E"
+POLICY_RAISES = {"E": PolicyError, "B": PolicyAbort, "K": KeyboardInterrupt, "G": GeneratorExit}
+POLICY_EXC = tuple(POLICY_RAISES.values())
+
+
+def policy_parts(spec):
+    """(kind, k, exception key) of a spec like ["always"], ["kth", 2], ["readers", "B"], ["kth", 3, "K"]"""
+    spec = list(spec)
+    exc = "E"
+    if spec and spec[-1] in POLICY_RAISES:
+        exc = spec.pop()
+    return spec[0], (spec[1] if len(spec) > 1 else None), exc
+
+
 def policy_name(spec):
-    return "-" if not spec else spec[0] + ("" if len(spec) == 1 else str(spec[1]))
+    if not spec:
+        return "-"
+    kind, k, exc = policy_parts(spec)
+    return kind + ("" if k is None else str(k)) + ("" if exc == "E" else "~" + exc)
 
 
 def policy_spec(name):
     if name in ("", "-"):
         return None
-    if name.startswith("kth"):
-        return ["kth", int(name[3:])]
-    return [name]
+    name, _, exc = name.partition("~")
+    spec = ["kth", int(name[3:])] if name.startswith("kth") else [name]
+    return spec + ([exc] if exc else [])
 
 
 class Boom(Exception):
@@ -398,12 +419,14 @@ def run_schedule(roles, mode, chooser, max_steps=None, policy=None):
         if policy:
             def prune_policy(z, version):
                 obs.policy_calls += 1
-                hit = (policy[0] == "always" or (policy[0] == "kth" and obs.policy_calls == policy[1])
-                       or (policy[0] == "readers" and len(z._readers) > 0))
+                kind, k, exc = policy_parts(policy)
+                hit = (kind == "always" or (kind == "kth" and obs.policy_calls == k)
+                       or (kind == "readers" and len(z._readers) > 0))
                 if hit:
                     me = sch.current()
                     obs.policy_raised(None if me is None else me.tid)
-                    raise PolicyError(policy_name(policy))
+                    obs.note("pruning-policy-raised." + POLICY_RAISES[exc].__name__)
+                    raise POLICY_RAISES[exc](policy_name(policy))
                 return True
 
             zone.set_pruning_policy(prune_policy)
@@ -447,7 +470,7 @@ def run_schedule(roles, mode, chooser, max_steps=None, policy=None):
                     else:  # double
                         try:
                             txn.commit()
-                        except PolicyError:
+                        except POLICY_EXC:
                             raised = True
                         for again in (txn.rollback, txn.commit):
                             try:
@@ -456,7 +479,7 @@ def run_schedule(roles, mode, chooser, max_steps=None, policy=None):
                                 pass
                             else:
                                 obs.bad("C12/mutex/transaction-ended-twice", f"writer {t}: a second end of an ended transaction was accepted")
-                except PolicyError:
+                except POLICY_EXC:
                     raised = True
                 if raised != (t in obs.failing):
                     obs.bad("C12/commit-failure/exception-lost",
@@ -483,7 +506,7 @@ def run_schedule(roles, mode, chooser, max_steps=None, policy=None):
                             pass
                     else:
                         r.rollback()
-                except PolicyError:
+                except POLICY_EXC:
                     pass  # the policy raised inside _end_read's prune: the reader is unregistered, the lock released
                 sch._micro(sch.current())
                 sch.mark("r-done")
@@ -616,8 +639,12 @@ def generate(ctx: Ctx, n: int, rng):
         c = {"kind": "sched", "roles": roles, "mode": mode, "strategy": list(strategy), "seed": rng.next() & 0xFFFFFFFF}
         if rng.chance(1, 4):
             # a user-supplied pruning policy that raises: always / on its k-th call / only while readers are open
-            c["policy"] = rng.choice([["always"], ["always"], ["kth", 1], ["kth", 2], ["kth", 3], ["readers"], ["readers"]])
+            c["policy"] = list(rng.choice([["always"], ["always"], ["kth", 1], ["kth", 2], ["kth", 3], ["readers"], ["readers"]]))
+            # half of them are interrupted by a BaseException that is not an Exception (custom, KeyboardInterrupt, GeneratorExit)
+            if rng.chance(1, 2):
+                c["policy"].append(rng.choice(["B", "B", "K", "G"]))
             ctx.count("policy." + c["policy"][0])
+            ctx.count("policy.raises." + POLICY_RAISES[policy_parts(c["policy"])[2]].__name__)
         r = eval_case(ctx, c)
         ctx.case((tuple(roles), mode, tuple(r["choices"])), sample={"roles": roles, "mode": mode, "strategy": list(strategy), "steps": r["steps"]})
 
@@ -703,6 +730,8 @@ def run(ctx: Ctx):
     exhaustive(ctx, ["wca", "wra"], "sync", 150)
     exhaustive(ctx, ["wca", "wca"], "line", 900)
     exhaustive(ctx, ["wca", "wca"], "sync", 150, policy=["always"])
+    exhaustive(ctx, ["wca", "wca"], "sync", 150, policy=["always", "B"])
+    exhaustive(ctx, ["wca", "wra", "rd"], "sync", 300, policy=["kth", 1, "K"], bound=1, use_keys=False)
     exhaustive(ctx, ["wca", "wca", "wca"], "sync", 400, policy=["kth", 2], bound=1, use_keys=False)
     generate(ctx, ctx.n(3000, 7000), rng)
     malformed(ctx, rng.fork(3), ctx.n(60, 600))
